@@ -161,6 +161,113 @@ def _ident(r, n_lo=1, n_hi=7):
     return r.choice(first) + ''.join(r.choice(rest) for _ in range(r.randint(n_lo - 1, n_hi - 1)))
 
 
+# ---- names beyond ASCII (family `uni`, D only)
+# letters whose case mapping is NOT one-to-one (the upper-case form has another length, several letters share one upper-case
+# form, the lower-case form of the upper-case form is another letter) and, for contrast, ordinary letters with a simple mapping
+UNI_SPECIAL = ['\u00df',      # sharp s: upper SS
+               '\u017f',      # long s: upper S
+               '\u00b5',      # micro sign: upper GREEK CAPITAL MU, whose lower is the greek small mu
+               '\u03c2',      # final sigma: upper SIGMA, whose lower is the medial sigma
+               '\ufb01',      # ligature fi: upper FI
+               '\ufb02',      # ligature fl: upper FL
+               '\u0149',      # n preceded by apostrophe: upper is two characters
+               '\u01f0',      # j with caron: upper is J + combining caron
+               '\u03d0',      # beta symbol: upper BETA, whose lower is the ordinary beta
+               '\u01c6',      # digraph dz with caron: lower, title and upper form
+               '\u1e9e']      # capital sharp s: lower is the sharp s, whose upper is SS (so only the capital spells itself)
+UNI_PLAIN = list('\u00e4\u00f6\u00fc\u00e9\u00f1\u00e7\u00f8\u00e5\u00c4\u00d6\u00dc\u00c9\u03bb\u03c0\u03a9\u0416\u0434\u044f')
+
+
+def _same_name(sp, name):
+    """The domain of the property beyond ASCII: `sp` is the name `name` in another letter case when both notions of "equal
+    apart from letter case" that the language offers agree - equal upper-case forms AND equal case-folded forms.  (For ASCII
+    names this is str.upper equality, as before.)  Spellings on which the two notions disagree (dotless i, capital I with dot,
+    the lower-case form of the capital sharp s) are outside the domain: they are neither generated nor demanded."""
+    return sp.upper() == name.upper() and sp.casefold() == name.casefold()
+
+
+def uni_patterns(name, limit=64):
+    """every spelling of `name` made by putting each of its letters into lower or upper case (a letter may become several:
+    sharp s -> SS), as far as it is the same name (_same_name); the declared spelling first"""
+    alts = []
+    for c in name:
+        forms = []
+        for f in (c, c.lower(), c.upper(), c.title()):
+            if f not in forms:
+                forms.append(f)
+        alts.append(forms)
+    out = []
+    for p in itertools.product(*alts):
+        sp = ''.join(p)
+        if sp not in out and _same_name(sp, name):
+            out.append(sp)
+            if len(out) >= limit:
+                break
+    return out
+
+
+def _respell_uni(r, name):
+    mode = r.random()
+    if mode < 0.12:
+        sp = name
+    elif mode < 0.30:
+        sp = name.upper()
+    elif mode < 0.40:
+        sp = name.lower()
+    elif mode < 0.48:
+        sp = name.swapcase()
+    else:
+        sp = ''.join((c.upper() if r.random() < 0.5 else c.lower()) for c in name)
+    if not _same_name(sp, name):
+        sp = name.upper() if _same_name(name.upper(), name) else name
+    return sp
+
+
+def _ident_uni(r, n_lo=1, n_hi=7):
+    """an identifier in which about every third letter is not ASCII (half of those with a case mapping that is not one-to-one)"""
+    ascii_first = 'abcdefghijklmnopqrstuvwxyzABCDEFGHIJKLMNOPQRSTUVWXYZ'
+
+    def letter(first):
+        w = r.random()
+        if w < 0.2:
+            return r.choice(UNI_SPECIAL)
+        if w < 0.35:
+            return r.choice(UNI_PLAIN)
+        return r.choice(ascii_first if first else ascii_first + '0123456789_')
+    return letter(True) + ''.join(letter(False) for _ in range(r.randint(n_lo - 1, n_hi - 1)))
+
+
+def _exhaustive_uni(ctx):
+    """as _exhaustive, for a two-letter attribute name whose second letter has a case mapping that is not one-to-one: every
+    history of writes and deletes under every spelling of the name, every state read under every spelling; the kind contains
+    the letter as well and is spelled in its upper-case form at the creation"""
+    depth = ctx.pick(3, 4)
+    for L in UNI_SPECIAL + UNI_PLAIN[:2]:
+        name, other = 'a' + L, 'cD'
+        sps = uni_patterns(name)
+        allsp = sps + case_patterns(other)
+        kind = 'K' + L
+        setup_ops = [['define', kind, [[name, 'integer'], [other, 'Integer']]], ['new', _respell_fixed(kind), [], []]]
+        # written / deleted under at most four spellings (the declared one, the upper-case, the lower-case form, then the others),
+        # read under all
+        acts = []
+        for sp in [name, name.upper(), name.lower()] + sps:
+            if sp in sps and sp not in acts and len(acts) < 4:
+                acts.append(sp)
+        alphabet = [('set', sp) for sp in acts] + [('del', sp) for sp in acts]
+        for seq in itertools.product(alphabet, repeat=depth):
+            ops = list(setup_ops)
+            for step, (kind_, sp) in enumerate(seq):
+                ops.append(['set', 0, sp, 10 + step] if kind_ == 'set' else ['del', 0, sp])
+                ops.append(['reads', 0, allsp])
+            yield {'fam': 'exh', 'uni': True, 'ops': ops}
+
+
+def _respell_fixed(name):
+    up = name.upper()
+    return up if _same_name(up, name) else name
+
+
 def _exhaustive(ctx):
     n2, n3 = 'aB', 'cDe'
     sp2, sp3 = case_patterns(n2), case_patterns(n3)
@@ -231,29 +338,32 @@ def _sql_value(v, ty, r):
     return '%d' % v
 
 
-def _random_case(r, maxlen, load=False, words=None, late=False):
+def _random_case(r, maxlen, load=False, words=None, late=False, uni=False):
     # schema: target class A (first attribute is the key), source class B with one referential attribute;
     # with `load` the classes, the association and the first rows are given as SQL text to xtuml.ModelLoader;
     # with `words` = (hot, cold) about half of the attribute names are words the library uses for the parameters of its own
     # functions (hot: those of the functions that take attribute names as keywords), declared as they are or in another letter
     # case, and a third of their uses spell them EXACTLY like the parameter
+    # with `uni` kinds and attribute names contain letters beyond ASCII, among them letters whose case mapping is not one-to-one;
+    # every use is spelled in another letter case of the SAME name (_same_name)
     origin = {}           # NAME -> the word it was taken from (empty outside the `words` family: rs() then is respell())
+    resp = _respell_uni if uni else respell
 
     def rs(nm):
         w = origin.get(nm.upper())
         if w is not None and r.random() < 0.3:
             return w
-        return respell(r, nm)
+        return resp(r, nm)
 
     def ident(lo, hi):
         while True:
-            nm = _ident(r, lo, hi)
+            nm = (_ident_uni if uni else _ident)(r, lo, hi)
             # the text grammar cannot spell every identifier: R<digit>... lexes as a relation id (any respelling may be used), keywords are reserved
             if not (load and (re.match(r'[Rr][0-9]', nm) or nm.upper() in SQL_RESERVED)):
                 return nm
 
     def mk_attrs(n):
-        out, seen = [], set()
+        out, seen, seen_cf = [], set(), set()
         while len(out) < n:
             nm = ident(1, 6)
             if r.random() < 0.2:
@@ -261,7 +371,7 @@ def _random_case(r, maxlen, load=False, words=None, late=False):
                 # in ANOTHER letter case: the lower-case spelling of such an attribute must reach the stored value, not
                 # something found on the class
                 w = r.choice(PLAUSIBLE)
-                cand = w.capitalize() if r.random() < 0.5 else respell(r, w)
+                cand = w.capitalize() if r.random() < 0.5 else resp(r, w)
                 if cand == w:
                     cand = w.upper()
                 if not (load and cand.upper() in SQL_RESERVED):
@@ -278,67 +388,68 @@ def _random_case(r, maxlen, load=False, words=None, late=False):
                 pool = hot if (hot and (not cold or r.random() < 0.5)) else (cold or PLAUSIBLE)
                 w = r.choice(pool)
                 how = r.random()
-                cand = w if how < 0.35 else (w.capitalize() if how < 0.55 else (w.upper() if how < 0.7 else respell(r, w)))
+                cand = w if how < 0.35 else (w.capitalize() if how < 0.55 else (w.upper() if how < 0.7 else resp(r, w)))
                 if not (load and (re.match(r'[Rr][0-9]', cand) or cand.upper() in SQL_RESERVED)):
                     nm = cand
                 else:
                     w = None
-            if nm.upper() in seen:
+            if nm.upper() in seen or (uni and nm.casefold() in seen_cf):
                 continue
             seen.add(nm.upper())
+            seen_cf.add(nm.casefold())
             if w is not None:
                 origin[nm.upper()] = w
-            out.append([nm, respell(r, r.choice(TYPES))])
+            out.append([nm, resp(r, r.choice(TYPES))])
         return out
     ka, kb = ident(1, 5), ident(1, 5)
-    while kb.upper() == ka.upper():
+    while kb.upper() == ka.upper() or kb.casefold() == ka.casefold():
         kb = ident(1, 5)
     a_attrs = mk_attrs(r.randint(1, 4))
     key_ty = r.choice(['unique_id', 'integer', 'string'])
-    a_attrs[0][1] = respell(r, key_ty)
+    a_attrs[0][1] = resp(r, key_ty)
     b_attrs = mk_attrs(r.randint(2, 5))
     if r.random() < 0.35:
         # two of a kind: the second class declares some of the FIRST class's attribute names, in another spelling (a
         # resolution remembered per spelling instead of per class would confuse them)
         for pos in r.sample(range(len(b_attrs)), r.randint(1, len(b_attrs))):
-            cand = respell(r, r.choice(a_attrs)[0])
-            if all(cand.upper() != nm.upper() for nm, _ in b_attrs):
+            cand = resp(r, r.choice(a_attrs)[0])
+            if all(cand.upper() != nm.upper() and cand.casefold() != nm.casefold() for nm, _ in b_attrs):
                 b_attrs[pos][0] = cand
     with_assoc = r.random() < 0.85 or load or late
     ref_name = None
     if with_assoc:
         pos = r.randrange(len(b_attrs))
         ref_name = b_attrs[pos][0]
-        b_attrs[pos][1] = respell(r, key_ty)
+        b_attrs[pos][1] = resp(r, key_ty)
     ops = [['define', ka, a_attrs], ['define', kb, b_attrs]]
     if load:
         ops = []
     if not load and r.random() < 0.2:
-        ops.append(['define', respell(r, ka), []])                      # rejected: already defined
+        ops.append(['define', resp(r, ka), []])                      # rejected: already defined
     if not load and r.random() < 0.15:
         kc = ka + kb + 'C'                                              # rejected: attribute names collide
         ops.append(['define', kc, [['Val', 'integer'], ['vAL', 'string']]])
-        ops.append(['find', respell(r, kc)])
+        ops.append(['find', resp(r, kc)])
     if not load and r.random() < 0.15:
         kr = ka + kb + 'R'                                              # rejected: a name python reserves for itself
         ops.append(['define', kr, [['Val', 'integer'], [r.choice(RESERVED_NAMES), 'string']]])
-        ops.append(['find', respell(r, kr)])
+        ops.append(['find', resp(r, kr)])
     if not load and r.random() < 0.15:
         kn = ka + kb + 'N'                                              # accepted: underscores, but not of the reserved form
         ops.append(['define', kn, [[nm, 'integer'] for nm in r.sample(NEAR_RESERVED, r.randint(1, 3))]])
-        ops.append(['find', respell(r, kn)])
+        ops.append(['find', resp(r, kn)])
     if with_assoc and not load and not late:
-        ops.append(['assoc', respell(r, kb), ref_name, respell(r, ka), respell(r, a_attrs[0][0])])
+        ops.append(['assoc', resp(r, kb), ref_name, resp(r, ka), resp(r, a_attrs[0][0])])
     # `late`: the association is formalised AFTER the first instances exist; until then its source key is a plain attribute
     classes = {ka.upper(): (ka, a_attrs, None), kb.upper(): (kb, b_attrs, None if late else ref_name)}
     insts = []            # KIND per instance
     present = {}          # (i, NAME) -> bool
     sql, rows = [], []
     if load:
-        tkey = respell(r, a_attrs[0][0])
+        tkey = resp(r, a_attrs[0][0])
         for kind, attrs in ((ka, a_attrs), (kb, b_attrs)):
             sql.append('CREATE TABLE %s (%s);' % (kind, ', '.join('%s %s' % (a, t) for a, t in attrs)))
-        sql.append('CREATE ROP REF_ID R1 FROM MC %s (%s) TO 1C %s (%s);' % (respell(r, kb), ref_name, respell(r, ka), tkey))
+        sql.append('CREATE ROP REF_ID R1 FROM MC %s (%s) TO 1C %s (%s);' % (resp(r, kb), ref_name, resp(r, ka), tkey))
         kT = a_attrs[0][1].upper()
         keys = r.sample(['k1', 'k2', 'k3', 'k4'] if kT == 'STRING' else [1, 2, 3, 4, 5], r.randint(1, 3))
         null_key = '' if kT == 'STRING' else 0
@@ -359,14 +470,14 @@ def _random_case(r, maxlen, load=False, words=None, late=False):
                 cols = [a for a, _ in attrs if r.random() < 0.85 or a == attrs[0][0]]
                 r.shuffle(cols)
                 sql.append('INSERT INTO %s (%s) VALUES (%s);' % (
-                    respell(r, kind), ', '.join(rs(a) for a in cols),
+                    resp(r, kind), ', '.join(rs(a) for a in cols),
                     ', '.join(_sql_value(row[a], dict(attrs)[a], r) for a in cols)))
                 for a, _ in attrs:
                     if a not in cols:
                         row[a] = None                                       # a column the statement does not mention
             else:
                 sql.append('INSERT INTO %s VALUES (%s);' % (
-                    respell(r, kind), ', '.join(_sql_value(row[a], t, r) for a, t in attrs)))
+                    resp(r, kind), ', '.join(_sql_value(row[a], t, r) for a, t in attrs)))
             i = len(insts)
             insts.append(kind.upper())
             rows.append([kind.upper(), [[a, row[a]] for a, _ in attrs]])
@@ -406,7 +517,7 @@ def _random_case(r, maxlen, load=False, words=None, late=False):
         insts.append(K)
         for nm, _ in attrs:
             present[(i, nm.upper())] = (nm != ref)
-        return ['new', respell(r, kind), args, kw2]
+        return ['new', resp(r, kind), args, kw2]
 
     for _ in range(r.randint(0 if load else 2, 4)):
         ops.append(gen_new())
@@ -414,7 +525,7 @@ def _random_case(r, maxlen, load=False, words=None, late=False):
         # the documented API routes on which instances exist before Association.formalize():
         #   define_association + formalize at once, after the instances;   define_association, more instances, formalize;
         #   define_association, more instances, batch_relate (links from the stored referential values), formalize
-        spec = [respell(r, kb), ref_name, respell(r, ka), respell(r, a_attrs[0][0])]
+        spec = [resp(r, kb), ref_name, resp(r, ka), resp(r, a_attrs[0][0])]
         route = r.choice(['assoc', 'formalize', 'batch', 'batch'])
         if route == 'assoc':
             ops.append(['assoc'] + spec)
@@ -475,7 +586,7 @@ def _random_case(r, maxlen, load=False, words=None, late=False):
             bad = kind + 'Z'
             while bad.upper() in classes:
                 bad += 'Z'
-            ops.append(['sel', respell(r, kind) if r.random() < 0.95 else bad, filt])
+            ops.append(['sel', resp(r, kind) if r.random() < 0.95 else bad, filt])
         elif what < 0.90:
             j = pick_inst()
             if r.random() < 0.8:
@@ -486,7 +597,7 @@ def _random_case(r, maxlen, load=False, words=None, late=False):
         elif what < 0.97:
             ops.append(['ser', i, [t for _, t in attrs]])
         else:
-            ops.append(['find', respell(r, r.choice([ka, kb])) if r.random() < 0.8 else _ident(r, 1, 3)])
+            ops.append(['find', resp(r, r.choice([ka, kb])) if r.random() < 0.8 else (_ident_uni if uni else _ident)(r, 1, 3)])
     out = {'fam': 'rand', 'ops': ops}
     if load:
         out = {'fam': 'load', 'ops': ops, 'sql': '\n'.join(sql) + '\n', 'rows': rows,
@@ -495,6 +606,8 @@ def _random_case(r, maxlen, load=False, words=None, late=False):
         out['words'] = sorted(set(origin.values()))
     if late:
         out['late'] = True
+    if uni:
+        out['uni'] = True
     return out
 
 
@@ -591,6 +704,12 @@ def generate(ctx):
     rng = ctx.rng.fork('api-words-loaded')
     for i in range(ctx.pick(300, 2500)):
         yield _random_case(rng.fork(i), 20, load=True, words=_API_WORDS)
+    # names beyond ASCII, among them letters whose case mapping is not one-to-one (D only)
+    for c in _exhaustive_uni(ctx):
+        yield c
+    rng = ctx.rng.fork('beyond-ascii')
+    for i in range(ctx.pick(1500, 12000)):
+        yield _random_case(rng.fork(i), 30, uni=True, late=(i % 5 == 4))
 
 
 # --------------------------------------------------------------------------- implementation side
@@ -688,6 +807,8 @@ def run_impl(case):
     index_of = {}
     obs, fails = [], []
     stats = {'cases_' + case['fam']: 1}
+    if case.get('uni'):
+        stats['cases_names_beyond_ascii'] = 1
     if case.get('words') is not None:
         stats['cases_api_words'] = 1
         if case['words']:
@@ -735,7 +856,12 @@ def run_impl(case):
             want = orc.expected(i, nm)
             if want is UNKNOWN or want is ABSENT:
                 continue
-            sps = case_patterns(nm) if len(nm) <= 3 else [nm, nm.upper(), nm.lower(), nm.swapcase(), nm.capitalize()]
+            if nm.isascii():
+                sps = case_patterns(nm) if len(nm) <= 3 else [nm, nm.upper(), nm.lower(), nm.swapcase(), nm.capitalize()]
+            else:
+                # beyond ASCII: only spellings that are the same name (_same_name); the declared and the upper-case form first
+                sps = [sp for sp in [nm, nm.upper(), nm.lower(), nm.swapcase(), nm.capitalize()] if _same_name(sp, nm)]
+                sps += [sp for sp in uni_patterns(nm, 24) if sp not in sps]
             for sp in sps:
                 try:
                     got = getattr(inst, sp)
@@ -923,6 +1049,8 @@ def run_impl(case):
                                  % (op[1], type(e).__name__, decl['kind']), n)
                         for a, t in decl['attrs']:
                             for sp in (a, a.upper(), a.lower(), a.swapcase()):
+                                if not _same_name(sp, a):
+                                    continue            # (beyond ASCII: not every such form is the same name)
                                 if mc.attribute_type(sp) != t:
                                     fail('attribute-type-case', 'attribute_type(%r) of %r gives %r, %r is declared as %r'
                                          % (sp, decl['kind'], mc.attribute_type(sp), a, t), n)
@@ -1332,6 +1460,8 @@ def _ops_sexp(ops):
 def model_line(case):
     if case['fam'] == 'load':
         return None          # D only: the history starts from what xtuml.ModelLoader built, which the model does not construct
+    if case.get('uni'):
+        return None          # D only: the model matches names as ASCII strings
     ops = case['ops']
     if case.get('late'):
         if any(op[0] == 'batch' for op in ops):
